@@ -30,6 +30,8 @@ def cases(seed, tier):
         f = list(FORCES[i % len(FORCES)] or [])
         if i % 3 != 2:
             f = [x for x in f if x != "stoch"] + ["nostoch"]
+        if i % 4 == 1:
+            f = f + ["ninf"]      # some agents end up in states without any feasible choice (all options -inf)
         out.append({"kind": "gen", "seed": seed * 1_000_003 + 31337 + i, "force": f, "n_params": 1, "budget": 3000,
                     "n_agents": [5, 7, 11, 13][i % 4] if tier == "quick" else [5, 7, 13, 64, 256][i % 5]})
     return out
@@ -51,9 +53,12 @@ def run_case(case):
     info = {"mj": mj, "meta": meta, "P": P}
     out = base_out(info, case)
     Vm = model_solve(mj, P)
-    if any(u for u in Vm["undef"]) or any(y == "-inf" for b in Vm["V"] for y in b["data"]):
-        out["skipped"] = "unsupported (-inf value or undefined transition)"
+    if any(u for u in Vm["undef"]):
+        out["skipped"] = "unsupported (undefined transition)"
         return out
+    # value arrays with -inf entries (states without any feasible choice) are *not* skipped here: the oracle compares
+    # the implementation with itself, and an agent without a feasible choice must not pick up another agent's row
+    out["hist"]["ninf_in_V"] = int(any(y == "-inf" for b in Vm["V"] for y in b["data"]))
     init = gen_initial_states(r, mj, n, meta=meta) if "init" not in case else {s: [Fr(x) for x in v] for s, v in case["init"].items()}
     seed = case.get("sim_seed", 4242)
     stochastic = any(f.get("stochastic") for f in mj["functions"])
